@@ -80,7 +80,7 @@ SumL(S) == IF S = {} THEN 0 ELSE LET i == CHOOSE j \in S : TRUE IN Len(obj[i].st
 \* total weight and number of updates (zero weights do not add weight) per sketch
 Bound == \A i \in Live : obj[i].total <= MaxTotal /\ Len(obj[i].stream) <= MaxTotal
 
-C == INSTANCE CountMin
+C == INSTANCE CountMin WITH WideNums <- FALSE
 \* every answer of the mechanism honours the contract's clause on returned values
 EstInv == \A i \in Live, x \in Items : C!EstOK(obj[i], x, Est(obj[i], x), Lb(obj[i], x), Ub(obj[i], x))
 \* every design step is a contract step whose free outcome (the new cells) is the design's own post-state
